@@ -154,6 +154,38 @@ theorem sync_before_events_and_schedules (h : Hook) (sc : List Bool) :
                   · exact ih _ hlen _ he
         exact this _ h.kube (Nat.le_refl _) sc hmem
 
+/-- **C06.2b `unlock_only_finished_synchronizations`** ("… before any Event of that binding": the events of a
+binding are held back until its monitor is unlocked). In EVERY state of the main-queue worker — any queue, also
+one with Synchronization tasks of several executions still waiting — an iteration that unlocks monitors `ms`
+handled a `HookRun` head task `t`, merged the tasks `merged` (a prefix of the rest of the queue, same hook)
+into it, unlocks exactly the monitor IDs carried by `t` and by those merged tasks, in order, nothing else,
+and `t` and all of `merged` have left the queue after the iteration (by `sync_before_events_and_schedules`
+an unlock stands only behind a successful execution or a skip). A Synchronization task carries exactly the
+monitor of its own binding (`syncTask_own_monitor`): the monitor of a binding whose Synchronization task is
+still queued afterwards is not touched. -/
+theorem unlock_only_finished_synchronizations (hooks : List Hook) (s : St) (ms : List Nat)
+    (h : Ev.unlock ms ∈ (step stopFact hooks s).log.drop s.log.length) :
+    ∃ t merged, t.typ = .hookRun ∧ s.queue = t :: merged ++ (step stopFact hooks s).queue ∧
+      (∀ m ∈ merged, m.hook = t.hook ∧ m.typ = .hookRun) ∧ ms = (t :: merged).flatMap (·.mons) :=
+  unlock_shape stopFact hooks s ms h
+
+theorem syncTask_own_monitor (h : Nat) (b : KBinding) :
+    (syncTask h b).mons = [b.name] ∧ (syncTask h b).ctxs = [.sync b.name b.group] ∧ (syncTask h b).hook = h :=
+  ⟨rfl, rfl, rfl⟩
+
+/-- non-vacuity: two bindings of group 1, a binding with the flag false (it stops the combination) and an
+ungrouped binding. After the combined Group execution exactly the monitors 1 and 2 are unlocked — the
+Synchronization tasks of bindings 3 and 4 are still queued with their monitors locked; the skip then unlocks
+3, and only the execution of binding 4's own Synchronization unlocks 4. -/
+example :
+    let h : Hook := { name := 1, v1 := true, onStartup := none, sched := false,
+                      kube := [⟨1, 1, true⟩, ⟨2, 1, true⟩, ⟨3, 0, false⟩, ⟨4, 0, true⟩] }
+    let s2 := runFuel stopFact [h] 2 (initSt [h] (fun _ => [false, true]))
+    s2.log = [.enableKube 1, .exec 1 false [.sync 2 1], .unlock [1, 2]] ∧
+    s2.queue = [syncTask 1 ⟨3, 0, false⟩, syncTask 1 ⟨4, 0, true⟩] ∧
+    (runFuel stopFact [h] 3 s2).log = s2.log ++ [.skip 1 [.sync 3 0], .unlock [3], .exec 1 true [.sync 4 0],
+      .exec 1 false [.sync 4 0], .unlock [4]] := by decide
+
 /-- **C06.3 under faults of the enabling itself, `sync_once_despite_enable_faults`.** The
 `EnableKubernetesBindings` task of a hook may fail any finite number of times, each time at any of its
 bindings (`h.kfail`, part of every `Hook` the theorems quantify over): the retried task ends with the
